@@ -90,9 +90,127 @@ class _l_address:
         return _address.UNIXAddress(name)
 
 
+# ---- scan based find / split / partition for LBytes -------------------------------------------------
+# CrossHair's str.find / split / partition on a str that contains ONE symbolic character build a z3
+# disjunction over every offset (~200 solver queries per parsed header).  The streams of this check
+# are concrete except for a few bytes; a character scan compares the concrete code points natively
+# and only asks the solver about the symbolic ones.  Same results as the originals (lbytes.selftest()
+# is run on the patched class by this module's selftest()).  Installed for this property's
+# processes only.
+
+def _scan_find(s, sub, start=0):
+    n, m = len(s), len(sub)
+    i = start
+    while i + m <= n:
+        j = 0
+        while j < m and s[i + j] == sub[j]:
+            j += 1
+        if j == m:
+            return i
+        i += 1
+    return -1
+
+
+def _lb_find(self, sub, *a):
+    if a or isinstance(sub, int):
+        return self.s.find(chr(sub) if isinstance(sub, int) else lbytes._s(sub), *a)
+    sub = lbytes._s(sub)
+    if len(sub) == 0:
+        return 0
+    return _scan_find(self.s, sub)
+
+
+def _lb_contains(self, x):
+    if isinstance(x, int):
+        return _scan_find(self.s, chr(x)) >= 0
+    sub = lbytes._s(x)
+    if len(sub) == 0:
+        return True
+    return _scan_find(self.s, sub) >= 0
+
+
+def _lb_split(self, sep=None, maxsplit=-1):
+    if sep is None:
+        return [lbytes.LBytes(p) for p in lbytes._split_ws(self.s, maxsplit)]
+    sep = lbytes._s(sep)
+    if len(sep) == 0:
+        raise ValueError("empty separator")
+    s = self.s
+    out = []
+    pos = 0
+    while maxsplit < 0 or len(out) < maxsplit:
+        i = _scan_find(s, sep, pos)
+        if i < 0:
+            break
+        out.append(lbytes.LBytes(s[pos:i]))
+        pos = i + len(sep)
+    out.append(lbytes.LBytes(s[pos:]))
+    return out
+
+
+def _lb_partition(self, sep):
+    sep = lbytes._s(sep)
+    if len(sep) == 0:
+        raise ValueError("empty separator")
+    i = _scan_find(self.s, sep)
+    if i < 0:
+        return (lbytes.LBytes(self.s), lbytes.LBytes(""), lbytes.LBytes(""))
+    return (lbytes.LBytes(self.s[:i]), lbytes.LBytes(sep), lbytes.LBytes(self.s[i + len(sep):]))
+
+
+def _lb_startswith(self, p, *a):
+    if a or isinstance(p, tuple):
+        return _orig_startswith(self, p, *a)
+    p = lbytes._s(p)
+    s = self.s
+    if len(p) > len(s):
+        return False
+    for i in range(len(p)):
+        if s[i] != p[i]:
+            return False
+    return True
+
+
+_orig_startswith = lbytes._LBase.startswith
+if api.MODE != "real":
+    lbytes._LBase.find = _lb_find
+    lbytes._LBase.__contains__ = _lb_contains
+    lbytes._LBase.split = _lb_split
+    lbytes._LBase.partition = _lb_partition
+    lbytes._LBase.startswith = _lb_startswith
+
+
+class _l_ipaddress:
+    """`ipaddress` for the lifted v1 parser.  ipaddress.IPv4Address(text) does str(text), which realises
+    a symbolic text (one path per byte value).  Concrete text goes to the real module; a text that
+    contains a symbolic byte (only in v1bad: a base address with ONE replaced byte that is none of
+    the 'special' bytes) is judged by _is_ipv4 / _is_ipv6 below, which selftest() compares with the real
+    ipaddress module on every single-byte replacement (all 256 values) of every base address."""
+    AddressValueError = __import__("ipaddress").AddressValueError
+
+    @staticmethod
+    def IPv4Address(text):
+        import ipaddress
+        if lbytes._is_conc(text):
+            return ipaddress.IPv4Address(text)
+        if not _is_ipv4(text):
+            raise ipaddress.AddressValueError("not an IPv4 address")
+        return None
+
+    @staticmethod
+    def IPv6Address(text):
+        import ipaddress
+        if lbytes._is_conc(text):
+            return ipaddress.IPv6Address(text)
+        if _is_ipv6(text) is not True:
+            raise ipaddress.AddressValueError("not an IPv6 address")
+        return None
+
+
 _CS = dict(lift._CALL_SHIMS, ord="_vl_ord")
 _XS = {"_vl_ord": _l_ord, "binascii": _l_binascii}
-L1 = lift.lift("twisted.protocols.haproxy._v1parser", names=["V1Parser"], call_shims=_CS, extra_shims=_XS, bitops=True)
+L1 = lift.lift("twisted.protocols.haproxy._v1parser", names=["V1Parser"], call_shims=_CS, bitops=True,
+               extra_shims=dict(_XS, ipaddress=_l_ipaddress))
 L2 = lift.lift("twisted.protocols.haproxy._v2parser", names=["V2Parser"], call_shims=_CS, extra_shims=_XS, bitops=True,
                fstrings=True, overrides={"address": _l_address})
 L = lift.lift("twisted.protocols.haproxy._wrapper", names=["HAProxyProtocolWrapper", "HAProxyWrappingFactory"],
@@ -536,7 +654,10 @@ def _conc_char(ch):
     """one path per value for the bytes that mean something in a v1 header; all other values stay
     one symbolic class"""
     o = ord(ch)
-    if not lbytes._ord_in(o, _SPECIAL):
+    cnt = 0
+    for c in _SPECIAL_ORDS:
+        cnt = cnt + (o == c)        # symbolic sum: no branching, so 'not special' stays ONE path
+    if cnt == 0:
         return ch
     lo, hi = 0, len(_SPECIAL_ORDS) - 1
     while lo <= hi:
@@ -809,4 +930,25 @@ VECTORS = {
 
 
 def selftest():
-    return lbytes.selftest()
+    """lbytes differential test (on the LBytes class with this module's scan based find/split) + the
+    address validators against the real ipaddress module on every single-byte replacement of every
+    base address of v1bad (the only texts the validators ever see in place of ipaddress)"""
+    import ipaddress
+    n = lbytes.selftest()
+    for base, fn, real in (("1.2.3.4", _is_ipv4, ipaddress.IPv4Address), ("25.6.7.8", _is_ipv4, ipaddress.IPv4Address),
+                           ("::1", _is_ipv6, ipaddress.IPv6Address), ("2001:db8::42:8329", _is_ipv6, ipaddress.IPv6Address)):
+        for i in range(len(base)):
+            for v in range(256):
+                txt = base[:i] + chr(v) + base[i + 1:]
+                try:
+                    real(txt)
+                    want = True
+                except ValueError:
+                    want = False
+                got = fn(txt)
+                if got is None:
+                    assert chr(v) in ".%", (txt, got)
+                else:
+                    assert got == want, (txt, got, want)
+                n += 1
+    return n
